@@ -39,6 +39,7 @@ type Harness struct {
 	StageATimeout int             // ms: limit for the unbounded SMT-string attempt
 	Havoc         map[string]bool // functions replaced by fresh results (harness-declared over-approximation)
 	Ideal         bool            // replace first-party CFB cipher by its ideal model (flow harnesses)
+	Race          bool // replay under the race detector
 	Guess         bool            // try guess-and-check models first (large strings)
 	NoValidate    bool            // no native validation samples (harness depends on uncontrollable native state, e.g. wall-clock nanoseconds)
 	Upgrade       bool            // try to upgrade bounded unsat verdicts of obligations to unbounded ones
@@ -273,6 +274,8 @@ func (w *World) load() error {
 								}
 							case "ideal":
 								h.Ideal = true
+							case "race":
+								h.Race = true
 							case "guess":
 								h.Guess = true
 							case "novalidate":
